@@ -19,11 +19,16 @@
 //!         4 SharedMut | 5 Value (trait ObjM, clonable client) | 6 RFn | 7 RFnMut | 8 RFnOnce
 //!   spawn 0/1 (`serve(spawn)` of the shared flavours)    pol 0 Ignore | 1 Send | 2 Fail
 //!   ncl   number of clients (1-4); cmode 0: one client sent to A and cloned there, 1: every clone is
-//!         sent separately from B (own port each)
+//!         sent separately from B (own port each), 2: LOCAL -- the client never travels: it is used (and
+//!         cloned) in the process of the server, request and reply channels are local channels (nothing is
+//!         serialized: the flags 4/8/16/32 and the methods 6/7 mean nothing, the connection plays no part)
 //!   lim   max_reply_size set on every client (0 = default)
 //!   ops   0 call   a=client b=method c=x d=flags   (the k-th call op has call id k, counted from 0)
 //!                  methods: 0 get(&self) 1 get_nc(&self, no_cancel) 2 add(&mut) 3 add_nc 4 take(self) 5 take_nc
 //!                           6 later_ref(&self) 7 later_mut(&mut self): methods the server does not know (ObjM flavours)
+//!                           b + 8 * layout (b <= 5, layout 1-3): the same method declared with its attributes in
+//!                           another textual layout (`#[no_cancel]` before / between / after doc comments and
+//!                           `#[allow]`); behaves exactly like method b
 //!                  flags: 1 hold at gate 1 | 2 hold at gate 2 | 4 request undecodable at the server |
 //!                         8 reply undecodable at the client | 16 reply exceeds `lim` | 32 request exceeds
 //!                         the client's max_request_size | 64 drop the call future right after its first poll
@@ -33,6 +38,8 @@
 //!       4 dropclient a=client
 //!       5 deliver a=direction (0 A->B, 1 B->A) b=number of frames          (race mode)
 //!       6 barrier                                                           (race mode)
+//!       7 stop                                 (the callee goes away: the future of `serve()` is dropped /
+//!                                               the provider of the remote function is dropped; once per case)
 //! Output (scripted): per op `acc n (id ev val)*`: acc 0 = issued, 1 = not issued (client busy / gone /
 //!   unknown id); the n events that became observable in this big step, grouped by call id
 //!   (ascending), in order of occurrence within a call:
@@ -116,8 +123,9 @@ pub fn f_take(s: u64, x: u64) -> u64 {
 
 #[derive(Clone, Copy, Debug, PartialEq, Eq)]
 pub enum Ev {
-    Inv { id: u32, cl: u32, meth: u8, x: u64, flags: u8 },
+    Inv { id: u32, cl: u32, meth: u8, lay: u8, x: u64, flags: u8 },
     Cut,
+    Stop,
     WindDown,
     DropCall(u32),
     Started(u32),
@@ -270,6 +278,11 @@ impl Tgt {
     }
 }
 
+// Every scripted method exists in four textual layouts of its attributes (method number = base + 8 * layout):
+//   layout 0: no attribute besides `#[no_cancel]`;  1: `#[no_cancel]` first, doc comments after it;
+//   2: `#[no_cancel]` between a doc comment and an `#[allow]`;  3: `#[no_cancel]` last, after doc comments and `#[allow]`.
+// The cancellable methods carry the same other attributes.  What is generated for a method (cancellable or
+// not) must not depend on where its attributes stand.
 #[rtc::remote(clone)]
 pub trait ObjM {
     async fn get(&self, a: A) -> Result<R, CallError>;
@@ -278,6 +291,60 @@ pub trait ObjM {
     async fn add(&mut self, a: A) -> Result<R, CallError>;
     #[no_cancel]
     async fn add_nc(&mut self, a: A) -> Result<R, CallError>;
+    /// Scripted method of the harness target (attribute layout 1).
+    ///
+    /// The position of the attributes of a method must not change what is generated for it.
+    async fn get_1(&self, a: A) -> Result<R, CallError>;
+    #[no_cancel]
+    /// Scripted method of the harness target (attribute layout 1).
+    ///
+    /// The position of the attributes of a method must not change what is generated for it.
+    async fn get_nc_1(&self, a: A) -> Result<R, CallError>;
+    /// Scripted method of the harness target (attribute layout 1).
+    ///
+    /// The position of the attributes of a method must not change what is generated for it.
+    async fn add_1(&mut self, a: A) -> Result<R, CallError>;
+    #[no_cancel]
+    /// Scripted method of the harness target (attribute layout 1).
+    ///
+    /// The position of the attributes of a method must not change what is generated for it.
+    async fn add_nc_1(&mut self, a: A) -> Result<R, CallError>;
+    /// Scripted method of the harness target (attribute layout 2).
+    #[allow(clippy::needless_lifetimes)]
+    async fn get_2(&self, a: A) -> Result<R, CallError>;
+    /// Scripted method of the harness target (attribute layout 2).
+    #[no_cancel]
+    #[allow(clippy::needless_lifetimes)]
+    async fn get_nc_2(&self, a: A) -> Result<R, CallError>;
+    /// Scripted method of the harness target (attribute layout 2).
+    #[allow(clippy::needless_lifetimes)]
+    async fn add_2(&mut self, a: A) -> Result<R, CallError>;
+    /// Scripted method of the harness target (attribute layout 2).
+    #[no_cancel]
+    #[allow(clippy::needless_lifetimes)]
+    async fn add_nc_2(&mut self, a: A) -> Result<R, CallError>;
+    /// Scripted method of the harness target (attribute layout 3).
+    ///
+    /// The position of the attributes of a method must not change what is generated for it.
+    #[allow(clippy::needless_lifetimes)]
+    async fn get_3(&self, a: A) -> Result<R, CallError>;
+    /// Scripted method of the harness target (attribute layout 3).
+    ///
+    /// The position of the attributes of a method must not change what is generated for it.
+    #[allow(clippy::needless_lifetimes)]
+    #[no_cancel]
+    async fn get_nc_3(&self, a: A) -> Result<R, CallError>;
+    /// Scripted method of the harness target (attribute layout 3).
+    ///
+    /// The position of the attributes of a method must not change what is generated for it.
+    #[allow(clippy::needless_lifetimes)]
+    async fn add_3(&mut self, a: A) -> Result<R, CallError>;
+    /// Scripted method of the harness target (attribute layout 3).
+    ///
+    /// The position of the attributes of a method must not change what is generated for it.
+    #[allow(clippy::needless_lifetimes)]
+    #[no_cancel]
+    async fn add_nc_3(&mut self, a: A) -> Result<R, CallError>;
 }
 
 impl ObjM for Tgt {
@@ -293,6 +360,42 @@ impl ObjM for Tgt {
     async fn add_nc(&mut self, a: A) -> Result<R, CallError> {
         self.do_mut(a).await
     }
+    async fn get_1(&self, a: A) -> Result<R, CallError> {
+        self.do_ref(a).await
+    }
+    async fn get_nc_1(&self, a: A) -> Result<R, CallError> {
+        self.do_ref(a).await
+    }
+    async fn add_1(&mut self, a: A) -> Result<R, CallError> {
+        self.do_mut(a).await
+    }
+    async fn add_nc_1(&mut self, a: A) -> Result<R, CallError> {
+        self.do_mut(a).await
+    }
+    async fn get_2(&self, a: A) -> Result<R, CallError> {
+        self.do_ref(a).await
+    }
+    async fn get_nc_2(&self, a: A) -> Result<R, CallError> {
+        self.do_ref(a).await
+    }
+    async fn add_2(&mut self, a: A) -> Result<R, CallError> {
+        self.do_mut(a).await
+    }
+    async fn add_nc_2(&mut self, a: A) -> Result<R, CallError> {
+        self.do_mut(a).await
+    }
+    async fn get_3(&self, a: A) -> Result<R, CallError> {
+        self.do_ref(a).await
+    }
+    async fn get_nc_3(&self, a: A) -> Result<R, CallError> {
+        self.do_ref(a).await
+    }
+    async fn add_3(&mut self, a: A) -> Result<R, CallError> {
+        self.do_mut(a).await
+    }
+    async fn add_nc_3(&mut self, a: A) -> Result<R, CallError> {
+        self.do_mut(a).await
+    }
 }
 
 /// The client-side view of [ObjM] in a later version of the interface: two more methods, which the
@@ -305,6 +408,60 @@ pub trait ObjX {
     async fn add(&mut self, a: A) -> Result<R, CallError>;
     #[no_cancel]
     async fn add_nc(&mut self, a: A) -> Result<R, CallError>;
+    /// Scripted method of the harness target (attribute layout 1).
+    ///
+    /// The position of the attributes of a method must not change what is generated for it.
+    async fn get_1(&self, a: A) -> Result<R, CallError>;
+    #[no_cancel]
+    /// Scripted method of the harness target (attribute layout 1).
+    ///
+    /// The position of the attributes of a method must not change what is generated for it.
+    async fn get_nc_1(&self, a: A) -> Result<R, CallError>;
+    /// Scripted method of the harness target (attribute layout 1).
+    ///
+    /// The position of the attributes of a method must not change what is generated for it.
+    async fn add_1(&mut self, a: A) -> Result<R, CallError>;
+    #[no_cancel]
+    /// Scripted method of the harness target (attribute layout 1).
+    ///
+    /// The position of the attributes of a method must not change what is generated for it.
+    async fn add_nc_1(&mut self, a: A) -> Result<R, CallError>;
+    /// Scripted method of the harness target (attribute layout 2).
+    #[allow(clippy::needless_lifetimes)]
+    async fn get_2(&self, a: A) -> Result<R, CallError>;
+    /// Scripted method of the harness target (attribute layout 2).
+    #[no_cancel]
+    #[allow(clippy::needless_lifetimes)]
+    async fn get_nc_2(&self, a: A) -> Result<R, CallError>;
+    /// Scripted method of the harness target (attribute layout 2).
+    #[allow(clippy::needless_lifetimes)]
+    async fn add_2(&mut self, a: A) -> Result<R, CallError>;
+    /// Scripted method of the harness target (attribute layout 2).
+    #[no_cancel]
+    #[allow(clippy::needless_lifetimes)]
+    async fn add_nc_2(&mut self, a: A) -> Result<R, CallError>;
+    /// Scripted method of the harness target (attribute layout 3).
+    ///
+    /// The position of the attributes of a method must not change what is generated for it.
+    #[allow(clippy::needless_lifetimes)]
+    async fn get_3(&self, a: A) -> Result<R, CallError>;
+    /// Scripted method of the harness target (attribute layout 3).
+    ///
+    /// The position of the attributes of a method must not change what is generated for it.
+    #[allow(clippy::needless_lifetimes)]
+    #[no_cancel]
+    async fn get_nc_3(&self, a: A) -> Result<R, CallError>;
+    /// Scripted method of the harness target (attribute layout 3).
+    ///
+    /// The position of the attributes of a method must not change what is generated for it.
+    #[allow(clippy::needless_lifetimes)]
+    async fn add_3(&mut self, a: A) -> Result<R, CallError>;
+    /// Scripted method of the harness target (attribute layout 3).
+    ///
+    /// The position of the attributes of a method must not change what is generated for it.
+    #[allow(clippy::needless_lifetimes)]
+    #[no_cancel]
+    async fn add_nc_3(&mut self, a: A) -> Result<R, CallError>;
     async fn later_ref(&self, a: A) -> Result<R, CallError>;
     async fn later_mut(&mut self, a: A) -> Result<R, CallError>;
 }
@@ -314,6 +471,33 @@ pub trait ObjR {
     async fn get(&self, a: A) -> Result<R, CallError>;
     #[no_cancel]
     async fn get_nc(&self, a: A) -> Result<R, CallError>;
+    /// Scripted method of the harness target (attribute layout 1).
+    ///
+    /// The position of the attributes of a method must not change what is generated for it.
+    async fn get_1(&self, a: A) -> Result<R, CallError>;
+    #[no_cancel]
+    /// Scripted method of the harness target (attribute layout 1).
+    ///
+    /// The position of the attributes of a method must not change what is generated for it.
+    async fn get_nc_1(&self, a: A) -> Result<R, CallError>;
+    /// Scripted method of the harness target (attribute layout 2).
+    #[allow(clippy::needless_lifetimes)]
+    async fn get_2(&self, a: A) -> Result<R, CallError>;
+    /// Scripted method of the harness target (attribute layout 2).
+    #[no_cancel]
+    #[allow(clippy::needless_lifetimes)]
+    async fn get_nc_2(&self, a: A) -> Result<R, CallError>;
+    /// Scripted method of the harness target (attribute layout 3).
+    ///
+    /// The position of the attributes of a method must not change what is generated for it.
+    #[allow(clippy::needless_lifetimes)]
+    async fn get_3(&self, a: A) -> Result<R, CallError>;
+    /// Scripted method of the harness target (attribute layout 3).
+    ///
+    /// The position of the attributes of a method must not change what is generated for it.
+    #[allow(clippy::needless_lifetimes)]
+    #[no_cancel]
+    async fn get_nc_3(&self, a: A) -> Result<R, CallError>;
 }
 
 impl ObjR for Tgt {
@@ -321,6 +505,24 @@ impl ObjR for Tgt {
         self.do_ref(a).await
     }
     async fn get_nc(&self, a: A) -> Result<R, CallError> {
+        self.do_ref(a).await
+    }
+    async fn get_1(&self, a: A) -> Result<R, CallError> {
+        self.do_ref(a).await
+    }
+    async fn get_nc_1(&self, a: A) -> Result<R, CallError> {
+        self.do_ref(a).await
+    }
+    async fn get_2(&self, a: A) -> Result<R, CallError> {
+        self.do_ref(a).await
+    }
+    async fn get_nc_2(&self, a: A) -> Result<R, CallError> {
+        self.do_ref(a).await
+    }
+    async fn get_3(&self, a: A) -> Result<R, CallError> {
+        self.do_ref(a).await
+    }
+    async fn get_nc_3(&self, a: A) -> Result<R, CallError> {
         self.do_ref(a).await
     }
 }
@@ -336,6 +538,87 @@ pub trait ObjV {
     async fn take(self, a: A) -> Result<R, CallError>;
     #[no_cancel]
     async fn take_nc(self, a: A) -> Result<R, CallError>;
+    /// Scripted method of the harness target (attribute layout 1).
+    ///
+    /// The position of the attributes of a method must not change what is generated for it.
+    async fn get_1(&self, a: A) -> Result<R, CallError>;
+    #[no_cancel]
+    /// Scripted method of the harness target (attribute layout 1).
+    ///
+    /// The position of the attributes of a method must not change what is generated for it.
+    async fn get_nc_1(&self, a: A) -> Result<R, CallError>;
+    /// Scripted method of the harness target (attribute layout 1).
+    ///
+    /// The position of the attributes of a method must not change what is generated for it.
+    async fn add_1(&mut self, a: A) -> Result<R, CallError>;
+    #[no_cancel]
+    /// Scripted method of the harness target (attribute layout 1).
+    ///
+    /// The position of the attributes of a method must not change what is generated for it.
+    async fn add_nc_1(&mut self, a: A) -> Result<R, CallError>;
+    /// Scripted method of the harness target (attribute layout 1).
+    ///
+    /// The position of the attributes of a method must not change what is generated for it.
+    async fn take_1(self, a: A) -> Result<R, CallError>;
+    #[no_cancel]
+    /// Scripted method of the harness target (attribute layout 1).
+    ///
+    /// The position of the attributes of a method must not change what is generated for it.
+    async fn take_nc_1(self, a: A) -> Result<R, CallError>;
+    /// Scripted method of the harness target (attribute layout 2).
+    #[allow(clippy::needless_lifetimes)]
+    async fn get_2(&self, a: A) -> Result<R, CallError>;
+    /// Scripted method of the harness target (attribute layout 2).
+    #[no_cancel]
+    #[allow(clippy::needless_lifetimes)]
+    async fn get_nc_2(&self, a: A) -> Result<R, CallError>;
+    /// Scripted method of the harness target (attribute layout 2).
+    #[allow(clippy::needless_lifetimes)]
+    async fn add_2(&mut self, a: A) -> Result<R, CallError>;
+    /// Scripted method of the harness target (attribute layout 2).
+    #[no_cancel]
+    #[allow(clippy::needless_lifetimes)]
+    async fn add_nc_2(&mut self, a: A) -> Result<R, CallError>;
+    /// Scripted method of the harness target (attribute layout 2).
+    #[allow(clippy::needless_lifetimes)]
+    async fn take_2(self, a: A) -> Result<R, CallError>;
+    /// Scripted method of the harness target (attribute layout 2).
+    #[no_cancel]
+    #[allow(clippy::needless_lifetimes)]
+    async fn take_nc_2(self, a: A) -> Result<R, CallError>;
+    /// Scripted method of the harness target (attribute layout 3).
+    ///
+    /// The position of the attributes of a method must not change what is generated for it.
+    #[allow(clippy::needless_lifetimes)]
+    async fn get_3(&self, a: A) -> Result<R, CallError>;
+    /// Scripted method of the harness target (attribute layout 3).
+    ///
+    /// The position of the attributes of a method must not change what is generated for it.
+    #[allow(clippy::needless_lifetimes)]
+    #[no_cancel]
+    async fn get_nc_3(&self, a: A) -> Result<R, CallError>;
+    /// Scripted method of the harness target (attribute layout 3).
+    ///
+    /// The position of the attributes of a method must not change what is generated for it.
+    #[allow(clippy::needless_lifetimes)]
+    async fn add_3(&mut self, a: A) -> Result<R, CallError>;
+    /// Scripted method of the harness target (attribute layout 3).
+    ///
+    /// The position of the attributes of a method must not change what is generated for it.
+    #[allow(clippy::needless_lifetimes)]
+    #[no_cancel]
+    async fn add_nc_3(&mut self, a: A) -> Result<R, CallError>;
+    /// Scripted method of the harness target (attribute layout 3).
+    ///
+    /// The position of the attributes of a method must not change what is generated for it.
+    #[allow(clippy::needless_lifetimes)]
+    async fn take_3(self, a: A) -> Result<R, CallError>;
+    /// Scripted method of the harness target (attribute layout 3).
+    ///
+    /// The position of the attributes of a method must not change what is generated for it.
+    #[allow(clippy::needless_lifetimes)]
+    #[no_cancel]
+    async fn take_nc_3(self, a: A) -> Result<R, CallError>;
 }
 
 impl ObjV for Tgt {
@@ -355,6 +638,60 @@ impl ObjV for Tgt {
         self.do_val(a).await
     }
     async fn take_nc(self, a: A) -> Result<R, CallError> {
+        self.do_val(a).await
+    }
+    async fn get_1(&self, a: A) -> Result<R, CallError> {
+        self.do_ref(a).await
+    }
+    async fn get_nc_1(&self, a: A) -> Result<R, CallError> {
+        self.do_ref(a).await
+    }
+    async fn add_1(&mut self, a: A) -> Result<R, CallError> {
+        self.do_mut(a).await
+    }
+    async fn add_nc_1(&mut self, a: A) -> Result<R, CallError> {
+        self.do_mut(a).await
+    }
+    async fn take_1(self, a: A) -> Result<R, CallError> {
+        self.do_val(a).await
+    }
+    async fn take_nc_1(self, a: A) -> Result<R, CallError> {
+        self.do_val(a).await
+    }
+    async fn get_2(&self, a: A) -> Result<R, CallError> {
+        self.do_ref(a).await
+    }
+    async fn get_nc_2(&self, a: A) -> Result<R, CallError> {
+        self.do_ref(a).await
+    }
+    async fn add_2(&mut self, a: A) -> Result<R, CallError> {
+        self.do_mut(a).await
+    }
+    async fn add_nc_2(&mut self, a: A) -> Result<R, CallError> {
+        self.do_mut(a).await
+    }
+    async fn take_2(self, a: A) -> Result<R, CallError> {
+        self.do_val(a).await
+    }
+    async fn take_nc_2(self, a: A) -> Result<R, CallError> {
+        self.do_val(a).await
+    }
+    async fn get_3(&self, a: A) -> Result<R, CallError> {
+        self.do_ref(a).await
+    }
+    async fn get_nc_3(&self, a: A) -> Result<R, CallError> {
+        self.do_ref(a).await
+    }
+    async fn add_3(&mut self, a: A) -> Result<R, CallError> {
+        self.do_mut(a).await
+    }
+    async fn add_nc_3(&mut self, a: A) -> Result<R, CallError> {
+        self.do_mut(a).await
+    }
+    async fn take_3(self, a: A) -> Result<R, CallError> {
+        self.do_val(a).await
+    }
+    async fn take_nc_3(self, a: A) -> Result<R, CallError> {
         self.do_val(a).await
     }
 }
@@ -388,6 +725,8 @@ type FOSlot = Arc<tokio::sync::RwLock<Option<rfn::RFnOnce<(A,), FnRes>>>>;
 
 enum Cl {
     M(ObjXClient),
+    /// local mode: the client of the server's own version of the interface
+    ML(ObjMClient),
     R(ObjRClient),
     V(VSlot),
     F(rfn::RFn<(A,), FnRes>),
@@ -411,6 +750,12 @@ pub struct Case {
     pub ops: Vec<[u128; 5]>,
 }
 
+impl Case {
+    pub fn local(&self) -> bool {
+        self.cmode == 2
+    }
+}
+
 pub fn parse(inp: &[u128]) -> Option<Case> {
     if inp.len() < 8 || (inp.len() - 8) % 5 != 0 {
         return None;
@@ -426,13 +771,13 @@ pub fn parse(inp: &[u128]) -> Option<Case> {
         lim: inp[7] as usize,
         ops: inp[8..].chunks(5).map(|c| [c[0], c[1], c[2], c[3], c[4]]).collect(),
     };
-    if c.mode > 1 || c.flav > 8 || c.pol > 2 || c.ncl == 0 || c.ncl > 4 || c.cmode > 1 || c.ops.len() > 400
+    if c.mode > 1 || c.flav > 8 || c.pol > 2 || c.ncl == 0 || c.ncl > 4 || c.cmode > 2 || c.ops.len() > 400
         || (matches!(c.flav, 0 | 7 | 8) && c.ncl != 1)
     {
         return None;
     }
     for o in &c.ops {
-        if o[0] > 6 || o[1] > 1_000_000 || o[2] > 1_000_000 || o[3] > (P as u128) || o[4] > 255 {
+        if o[0] > 7 || o[1] > 1_000_000 || o[2] > 1_000_000 || o[3] > (P as u128) || o[4] > 255 {
             return None;
         }
     }
@@ -449,12 +794,28 @@ fn eff_meth(flav: u128, meth: u128) -> u128 {
     }
 }
 
-fn method_ok(flav: u128, meth: u128) -> bool {
+fn method_ok(flav: u128, local: bool, meth: u128) -> bool {
+    let (base, lay) = (meth % 8, meth / 8);
+    if flav >= 6 {
+        return true;
+    }
+    if lay > 3 || (lay > 0 && base > 5) || (local && base > 5) {
+        return false;
+    }
     match flav {
-        0 => meth <= 5,
-        1 | 3 => meth <= 1,
-        2 | 4 | 5 => meth <= 3 || meth == 6 || meth == 7,
-        _ => true,
+        0 => base <= 5,
+        1 | 3 => base <= 1,
+        _ => base <= 3 || base == 6 || base == 7,
+    }
+}
+
+/// local mode: nothing is serialized, the flags about undecodable / oversized requests and replies mean
+/// nothing (as `mask_flags` of the model)
+fn mask_flags(c: &Case, flags: u128) -> u128 {
+    if c.local() {
+        flags & !(4 | 8 | 16 | 32)
+    } else {
+        flags
     }
 }
 
@@ -503,8 +864,29 @@ pub struct Trace {
     pub polled_once: Vec<u32>,
 }
 
-/// Runs the server side on endpoint B: creates target and server, sends the clients, serves.
-async fn server_side(c: Case, ctl: Arc<Ctl>, mut tx: base::Sender<Item>, err_tx: tokio::sync::mpsc::Sender<remoc::rch::mpsc::RecvError>) -> Option<u64> {
+/// Where the server side hands its clients: over the connection to endpoint A, or (local mode) directly
+/// to the harness, without any serialization.
+enum Out {
+    Remote(base::Sender<Item>),
+    Local(tokio::sync::mpsc::UnboundedSender<Item>),
+}
+impl Out {
+    async fn send(&mut self, it: Item) {
+        match self {
+            Out::Remote(tx) => {
+                let _ = tx.send(it).await;
+            }
+            Out::Local(tx) => {
+                let _ = tx.send(it);
+            }
+        }
+    }
+}
+
+/// Runs the server side on endpoint B: creates target and server, sends the clients, serves.  The stop op
+/// aborts this task: the future of `serve()` (with the target, where it is borrowed) resp. the provider of
+/// the remote function is dropped.
+async fn server_side(c: Case, ctl: Arc<Ctl>, mut tx: Out, err_tx: tokio::sync::mpsc::Sender<remoc::rch::mpsc::RecvError>) -> Option<u64> {
     let pol = || match c.pol {
         0 => OnReqReceiveError::Ignore,
         1 => OnReqReceiveError::Send(err_tx.clone()),
@@ -523,20 +905,20 @@ async fn server_side(c: Case, ctl: Arc<Ctl>, mut tx: base::Sender<Item>, err_tx:
             $clonable(&mut tx, client, n_send).await;
         }};
     }
-    async fn send_m(tx: &mut base::Sender<Item>, client: ObjMClient, n: usize) {
+    async fn send_m(tx: &mut Out, client: ObjMClient, n: usize) {
         for _ in 1..n {
-            let _ = tx.send(Item::M(client.clone())).await;
+            tx.send(Item::M(client.clone())).await;
         }
-        let _ = tx.send(Item::M(client)).await;
+        tx.send(Item::M(client)).await;
     }
-    async fn send_r(tx: &mut base::Sender<Item>, client: ObjRClient, n: usize) {
+    async fn send_r(tx: &mut Out, client: ObjRClient, n: usize) {
         for _ in 1..n {
-            let _ = tx.send(Item::R(client.clone())).await;
+            tx.send(Item::R(client.clone())).await;
         }
-        let _ = tx.send(Item::R(client)).await;
+        tx.send(Item::R(client)).await;
     }
-    async fn send_v(tx: &mut base::Sender<Item>, client: ObjVClient, _n: usize) {
-        let _ = tx.send(Item::V(client)).await;
+    async fn send_v(tx: &mut Out, client: ObjVClient, _n: usize) {
+        tx.send(Item::V(client)).await;
     }
     let done = |ctl: &Arc<Ctl>, r: &Result<(), ServeError>| ctl.push(Ev::SrvDone(serve_code(r)));
     match c.flav {
@@ -608,7 +990,7 @@ async fn server_side(c: Case, ctl: Arc<Ctl>, mut tx: base::Sender<Item>, err_tx:
         6 => {
             // RFn: the function cannot mutate captured state; it reads a constant
             let ctl2 = ctl.clone();
-            let f = rfn::RFn::new_1(move |a: A| {
+            let (f, _provider) = rfn::RFn::provided_1(move |a: A| {
                 let ctl = ctl2.clone();
                 async move {
                     let t = Tgt { v: 0, ctl };
@@ -616,10 +998,11 @@ async fn server_side(c: Case, ctl: Arc<Ctl>, mut tx: base::Sender<Item>, err_tx:
                 }
             });
             for _ in 1..n_send {
-                let _ = tx.send(Item::F(f.clone())).await;
+                tx.send(Item::F(f.clone())).await;
             }
-            let _ = tx.send(Item::F(f)).await;
+            tx.send(Item::F(f)).await;
             drop(tx);
+            // the provider lives until the stop op aborts this task
             std::future::pending::<()>().await;
             None
         }
@@ -628,7 +1011,7 @@ async fn server_side(c: Case, ctl: Arc<Ctl>, mut tx: base::Sender<Item>, err_tx:
             // only waits at gate 2
             let ctl2 = ctl.clone();
             let mut v = 0u64;
-            let f = rfn::RFnMut::new_1(move |a: A| {
+            let (f, _provider) = rfn::RFnMut::provided_1(move |a: A| {
                 let ctl = ctl2.clone();
                 let g = Guard::start(&ctl, a.id);
                 let (s2, r) = f_add(v, a.x);
@@ -642,18 +1025,18 @@ async fn server_side(c: Case, ctl: Arc<Ctl>, mut tx: base::Sender<Item>, err_tx:
                     Ok(reply(&a, r))
                 }
             });
-            let _ = tx.send(Item::FM(f)).await;
+            tx.send(Item::FM(f)).await;
             drop(tx);
             std::future::pending::<()>().await;
             None
         }
         _ => {
             let ctl2 = ctl.clone();
-            let f = rfn::RFnOnce::new_1(move |a: A| async move {
+            let (f, _provider) = rfn::RFnOnce::provided_1(move |a: A| async move {
                 let t = Tgt { v: 0, ctl: ctl2 };
                 Ok(t.do_val(a).await.unwrap())
             });
-            let _ = tx.send(Item::FO(f)).await;
+            tx.send(Item::FO(f)).await;
             drop(tx);
             std::future::pending::<()>().await;
             None
@@ -677,7 +1060,54 @@ fn mk_arg(c: &Case, id: u32, x: u64, flags: u128) -> A {
 /// Starts call `id` as its own task (or reports that the client cannot be used now).
 type CallFut = std::pin::Pin<Box<dyn Future<Output = ()> + Send>>;
 
+/// the call of scripted method `base` in attribute layout `lay` on a client of one of the harness traits
+macro_rules! call_ref {
+    ($m:expr, $a:expr, $base:expr, $lay:expr) => {
+        match ($base, $lay) {
+            (0, 0) => $m.get($a).await,
+            (0, 1) => $m.get_1($a).await,
+            (0, 2) => $m.get_2($a).await,
+            (0, _) => $m.get_3($a).await,
+            (_, 0) => $m.get_nc($a).await,
+            (_, 1) => $m.get_nc_1($a).await,
+            (_, 2) => $m.get_nc_2($a).await,
+            (_, _) => $m.get_nc_3($a).await,
+        }
+    };
+}
+macro_rules! call_mut {
+    ($m:expr, $a:expr, $base:expr, $lay:expr) => {
+        match ($base, $lay) {
+            (2, 0) => $m.add($a).await,
+            (2, 1) => $m.add_1($a).await,
+            (2, 2) => $m.add_2($a).await,
+            (2, _) => $m.add_3($a).await,
+            (_, 0) => $m.add_nc($a).await,
+            (_, 1) => $m.add_nc_1($a).await,
+            (_, 2) => $m.add_nc_2($a).await,
+            (_, _) => $m.add_nc_3($a).await,
+        }
+    };
+}
+macro_rules! call_val {
+    ($m:expr, $a:expr, $base:expr, $lay:expr) => {
+        match ($base, $lay) {
+            (4, 0) => $m.take($a).await,
+            (4, 1) => $m.take_1($a).await,
+            (4, 2) => $m.take_2($a).await,
+            (4, _) => $m.take_3($a).await,
+            (_, 0) => $m.take_nc($a).await,
+            (_, 1) => $m.take_nc_1($a).await,
+            (_, 2) => $m.take_nc_2($a).await,
+            (_, _) => $m.take_nc_3($a).await,
+        }
+    };
+}
+
 fn start_call(c: &Case, ctl: &Arc<Ctl>, clients: &mut [Option<Cl>], id: u32, cl: usize, meth: u128, x: u64, flags: u128) -> Option<CallFut> {
+    let flags = mask_flags(c, flags);
+    let (meth, lay) = if c.flav >= 6 { (meth, 0) } else { (meth % 8, meth / 8) };
+    let full_meth = meth + 8 * lay;
     let a = mk_arg(c, id, x, flags);
     let ctl2 = ctl.clone();
     let ctl3 = ctl.clone();
@@ -689,23 +1119,32 @@ fn start_call(c: &Case, ctl: &Arc<Ctl>, clients: &mut [Option<Cl>], id: u32, cl:
         Ok(r) => ctl3.push(Ev::RetVal(id, r.val)),
         Err(e) => ctl3.push(Ev::RetErr(id, fn_err_class(&e))),
     };
-    if !method_ok(c.flav, meth) {
+    if !method_ok(c.flav, c.local(), full_meth) {
         return None;
     }
     let slot = clients.get_mut(cl)?;
-    let inv = Ev::Inv { id, cl: cl as u32, meth: eff_meth(c.flav, meth) as u8, x, flags: flags as u8 };
+    let inv = Ev::Inv { id, cl: cl as u32, meth: eff_meth(c.flav, meth) as u8, lay: lay as u8, x, flags: flags as u8 };
     let h: CallFut = match slot.as_mut()? {
         Cl::M(m) => {
             let mut m = m.clone();
             ctl.push(inv);
             Box::pin(async move {
                 let r = match meth {
-                    0 => m.get(a).await,
-                    1 => m.get_nc(a).await,
-                    2 => m.add(a).await,
-                    3 => m.add_nc(a).await,
+                    0 | 1 => call_ref!(m, a, meth, lay),
+                    2 | 3 => call_mut!(m, a, meth, lay),
                     6 => m.later_ref(a).await,
                     _ => m.later_mut(a).await,
+                };
+                fin(r)
+            })
+        }
+        Cl::ML(m) => {
+            let mut m = m.clone();
+            ctl.push(inv);
+            Box::pin(async move {
+                let r = match meth {
+                    0 | 1 => call_ref!(m, a, meth, lay),
+                    _ => call_mut!(m, a, meth, lay),
                 };
                 fin(r)
             })
@@ -714,7 +1153,7 @@ fn start_call(c: &Case, ctl: &Arc<Ctl>, clients: &mut [Option<Cl>], id: u32, cl:
             let m = m.clone();
             ctl.push(inv);
             Box::pin(async move {
-                let r = if meth == 0 { m.get(a).await } else { m.get_nc(a).await };
+                let r = call_ref!(m, a, meth, lay);
                 fin(r)
             })
         }
@@ -725,7 +1164,7 @@ fn start_call(c: &Case, ctl: &Arc<Ctl>, clients: &mut [Option<Cl>], id: u32, cl:
                 ctl.push(inv);
                 Box::pin(async move {
                     let m = g.as_ref().unwrap();
-                    let r = if meth == 0 { m.get(a).await } else { m.get_nc(a).await };
+                    let r = call_ref!(m, a, meth, lay);
                     fin(r)
                 })
             } else {
@@ -737,12 +1176,13 @@ fn start_call(c: &Case, ctl: &Arc<Ctl>, clients: &mut [Option<Cl>], id: u32, cl:
                     let m = g.take().unwrap();
                     drop(g);
                     Box::pin(async move {
-                        let r = if meth == 4 { m.take(a).await } else { m.take_nc(a).await };
+                        let r = call_val!(m, a, meth, lay);
                         fin(r)
                     })
                 } else {
                     Box::pin(async move {
-                        let r = if meth == 2 { g.as_mut().unwrap().add(a).await } else { g.as_mut().unwrap().add_nc(a).await };
+                        let m = g.as_mut().unwrap();
+                        let r = call_mut!(m, a, meth, lay);
                         fin(r)
                     })
                 }
@@ -784,25 +1224,39 @@ async fn run_case(c: Case) -> Option<Trace> {
     let jb = tokio::spawn(conn_b);
     let ctl = Arc::new(Ctl::default());
     let (uerr_tx, mut uerr_rx) = tokio::sync::mpsc::channel(256);
-    let mut srv = tokio::spawn(server_side(c.clone(), ctl.clone(), tx_b, uerr_tx));
+    let (local_tx, mut local_rx) = tokio::sync::mpsc::unbounded_channel();
+    let out = if c.local() { Out::Local(local_tx) } else { Out::Remote(tx_b) };
+    let mut srv = tokio::spawn(server_side(c.clone(), ctl.clone(), out, uerr_tx));
 
-    // receive the clients on A
+    // receive the clients on A (local mode: take the client from the server side as it is)
     let mut clients: Vec<Option<Cl>> = Vec::new();
     let n_recv = if c.cmode == 1 && matches!(c.flav, 1..=6) { c.ncl } else { 1 };
     for _ in 0..n_recv {
-        let it = rx_a.recv().await.ok()??;
-        clients.push(Some(match it {
-            ItemA::M(m) => Cl::M(m),
-            ItemA::R(m) => Cl::R(m),
-            ItemA::V(m) => Cl::V(Arc::new(tokio::sync::RwLock::new(Some(m)))),
-            ItemA::F(f) => Cl::F(f),
-            ItemA::FM(f) => Cl::FM(Arc::new(tokio::sync::RwLock::new(Some(f)))),
-            ItemA::FO(f) => Cl::FO(Arc::new(tokio::sync::RwLock::new(Some(f)))),
-        }));
+        let cl = if c.local() {
+            match local_rx.recv().await? {
+                Item::M(m) => Cl::ML(m),
+                Item::R(m) => Cl::R(m),
+                Item::V(m) => Cl::V(Arc::new(tokio::sync::RwLock::new(Some(m)))),
+                Item::F(f) => Cl::F(f),
+                Item::FM(f) => Cl::FM(Arc::new(tokio::sync::RwLock::new(Some(f)))),
+                Item::FO(f) => Cl::FO(Arc::new(tokio::sync::RwLock::new(Some(f)))),
+            }
+        } else {
+            match rx_a.recv().await.ok()?? {
+                ItemA::M(m) => Cl::M(m),
+                ItemA::R(m) => Cl::R(m),
+                ItemA::V(m) => Cl::V(Arc::new(tokio::sync::RwLock::new(Some(m)))),
+                ItemA::F(f) => Cl::F(f),
+                ItemA::FM(f) => Cl::FM(Arc::new(tokio::sync::RwLock::new(Some(f)))),
+                ItemA::FO(f) => Cl::FO(Arc::new(tokio::sync::RwLock::new(Some(f)))),
+            }
+        };
+        clients.push(Some(cl));
     }
     while clients.len() < c.ncl {
         let cl = match clients[0].as_ref().unwrap() {
             Cl::M(m) => Cl::M(m.clone()),
+            Cl::ML(m) => Cl::ML(m.clone()),
             Cl::R(m) => Cl::R(m.clone()),
             Cl::F(f) => Cl::F(f.clone()),
             Cl::V(s) => Cl::V(s.clone()),
@@ -823,6 +1277,7 @@ async fn run_case(c: Case) -> Option<Trace> {
     let mut polled_once = Vec::new();
     let mut steps = Vec::new();
     let mut srv_done = false;
+    let mut stopped = false;
     let mut final_state = None;
     let mut mark = ctl.log.lock().unwrap().len();
     for o in &c.ops {
@@ -879,11 +1334,22 @@ async fn run_case(c: Case) -> Option<Trace> {
                 }
                 _ => 1,
             },
+            3 if c.local() => 1, // no connection between the callers and the callee
             3 => {
                 net.a2b.fail(Fault::StreamErr);
                 net.b2a.fail(Fault::StreamErr);
                 ctl.push(Ev::Cut);
                 0
+            }
+            7 => {
+                if stopped {
+                    1
+                } else {
+                    stopped = true;
+                    srv.abort();
+                    ctl.push(Ev::Stop);
+                    0
+                }
             }
             4 => match clients.get_mut(o[1] as usize) {
                 Some(s) if s.is_some() => {
@@ -985,7 +1451,7 @@ fn ev_nums(e: &Ev) -> Option<(u32, u128, u128)> {
         Ev::UserErrs(n) => (ERR_ID, 8, n as u128),
         Ev::SrvDone(c) => (SRV_ID, 9, c as u128),
         Ev::Torn(i) => (i, 7, 0),
-        Ev::Inv { .. } | Ev::DropCall(_) | Ev::Cut | Ev::WindDown => return None,
+        Ev::Inv { .. } | Ev::DropCall(_) | Ev::Cut | Ev::Stop | Ev::WindDown => return None,
     })
 }
 
@@ -1038,6 +1504,7 @@ pub fn exec(inp: &[u128]) -> (Vec<u128>, String, String) {
 
 struct CallInfo {
     meth: u8,
+    lay: u8,
     x: u64,
     flags: u8,
     inv_at: usize,
@@ -1053,10 +1520,11 @@ fn collect(t: &Trace) -> Vec<CallInfo> {
     let mut v: Vec<CallInfo> = Vec::new();
     for (p, e) in t.log.iter().enumerate() {
         match *e {
-            Ev::Inv { id, meth, x, flags, .. } => {
+            Ev::Inv { id, meth, lay, x, flags, .. } => {
                 assert_eq!(id as usize, v.len());
                 v.push(CallInfo {
                     meth,
+                    lay,
                     x,
                     flags,
                     inv_at: p,
@@ -1086,6 +1554,10 @@ fn is_mut_meth(m: u8) -> bool {
 }
 fn no_cancel(c: &Case, m: u8) -> bool {
     c.flav >= 6 || m % 2 == 1
+}
+/// the method runs inside the future of `serve()` (not in a task of its own): it goes away with that future
+fn runs_inline(c: &Case, m: u8) -> bool {
+    c.flav < 6 && !(c.spawn && (c.flav == 3 || (c.flav == 4 && !is_mut_meth(m))))
 }
 
 /// Asks the verified checker (`Lin.linearizable`, extracted) about a client history.
@@ -1128,11 +1600,15 @@ fn verified_lin(history: &[u128]) -> Result<bool, String> {
 ///         started finishes and is never cancelled;
 ///      O7 a call fails only for a reason of its own (undecodable/oversized request or reply), a lost
 ///         connection, or a server that ended for a legitimate reason (policy Fail after an undecodable
-///         request, target consumed by a by-value call); `serve()` never ends with a reply error.
+///         request, target consumed by a by-value call, stop op); `serve()` never ends with a reply error.
+/// The callee going away (stop op: the future of `serve()` / the provider is dropped) is no excuse for O1-O5:
+/// every call, pending or made afterwards, local or remote, still gets exactly one outcome.  It takes the
+/// methods running inside the future of `serve()` with it (O6: also no_cancel ones).
 fn oracle(c: &Case, t: &Trace) -> String {
     let calls = collect(t);
     let wind = t.log.iter().position(|e| *e == Ev::WindDown).unwrap_or(t.log.len());
     let cut_at = t.log.iter().position(|e| *e == Ev::Cut);
+    let stop_at = t.log.iter().position(|e| *e == Ev::Stop);
     if let Some(Ev::Torn(i)) = t.log.iter().find(|e| matches!(e, Ev::Torn(_))) {
         return format!("FAIL: O4 call {i} read two different target states while it held the target");
     }
@@ -1196,10 +1672,12 @@ fn oracle(c: &Case, t: &Trace) -> String {
     for (i, k) in calls.iter().enumerate() {
         let nc = no_cancel(c, k.meth);
         if nc {
-            if !k.cancelled.is_empty() {
+            // dropped together with the future of `serve()` it was running in
+            let with_serve = runs_inline(c, k.meth) && matches!((stop_at, k.cancelled.first()), (Some(s), Some(&cp)) if s < cp);
+            if !k.cancelled.is_empty() && !with_serve {
                 return format!("FAIL: O6 no_cancel call {i} was cancelled");
             }
-            if !k.started.is_empty() && k.finished.is_empty() {
+            if !k.started.is_empty() && k.finished.is_empty() && !with_serve {
                 return format!("FAIL: O6 no_cancel call {i} started but never finished");
             }
             continue;
@@ -1265,7 +1743,8 @@ fn oracle(c: &Case, t: &Trace) -> String {
             }
             let legit_end = srv_done.iter().any(|(sp, r)| *sp < *p && ((*r == 1 && c.pol == 2) || *r == 0))
                 || (c.pol == 2 && bad_before(*p))
-                || value_before(k.inv_at);
+                || value_before(k.inv_at)
+                || stop_at.map_or(false, |sp| sp < *p);
             if legit_end {
                 continue;
             }
@@ -1301,6 +1780,9 @@ fn signature(c: &Case, t: &Trace) -> String {
     }
     s.push_str(if c.mode == 0 { "scr" } else { "race" });
     s.push_str(&format!(":f{}{}:p{}:c{}", c.flav, if c.spawn && (c.flav == 3 || c.flav == 4) { "s" } else { "n" }, c.pol, c.ncl));
+    if c.local() {
+        s.push_str(":local");
+    }
     let wind = t.log.iter().position(|e| *e == Ev::WindDown).unwrap_or(t.log.len());
     // concurrency: a call invoked while another one was outstanding
     let mut open: Vec<u32> = Vec::new();
@@ -1343,14 +1825,30 @@ fn signature(c: &Case, t: &Trace) -> String {
     feat(calls.iter().any(|k| k.flags & 128 != 0), "unpolled");
     feat(calls.iter().any(|k| k.flags & 4 != 0), "qbad");
     feat(calls.iter().any(|k| k.flags & 8 != 0), "rbad");
+    feat(calls.iter().any(|k| k.lay != 0), "attr");
     feat(t.log.contains(&Ev::Cut), "cut");
+    let stop_at = t.log[..wind].iter().position(|e| *e == Ev::Stop);
+    feat(stop_at.is_some(), "stop");
+    feat(stop_at.map_or(false, |sp| calls.iter().any(|k| k.inv_at > sp && k.inv_at < wind)), "after");
     feat(t.log[..wind].iter().any(|e| matches!(e, Ev::SrvDone(1))), "fail");
     feat(t.log[..wind].iter().any(|e| matches!(e, Ev::SrvDone(0))), "end");
     feat(calls.iter().any(|k| matches!(k.ret.first(), Some((_, None)))), "err");
     s
 }
 
+/// a scripted method, in one of the four textual layouts of its attributes
 fn pick_method(r: &mut Rng, flav: u64) -> u64 {
+    let m = pick_base_method(r, flav);
+    if m <= 5 && flav < 6 && r.chance(1, 2) {
+        m + 8 * r.range(1, 3)
+    } else if r.chance(1, 200) {
+        m + 8 * r.range(1, 4)
+    } else {
+        m
+    }
+}
+
+fn pick_base_method(r: &mut Rng, flav: u64) -> u64 {
     if r.chance(1, 40) {
         return r.below(6);
     }
@@ -1375,7 +1873,8 @@ fn gen_case(r: &mut Rng, mode: u64, profile: u64) -> Vec<u128> {
     let spawn = r.below(2);
     let pol = *r.pick(&[0u64, 0, 0, 1, 2]);
     let ncl = if matches!(flav, 0 | 7 | 8) { 1 } else { r.range(1, 4) };
-    let cmode = r.below(2);
+    // one case in five: the callers live in the process of the callee (no connection in between)
+    let cmode = if r.chance(1, 5) { 2 } else { r.below(2) };
     let defer = if mode == 1 && r.chance(2, 3) { r.next() | 1 } else { 0 };
     let lim = if r.chance(1, 5) { 2000 } else { 0 };
     let mut v: Vec<u128> = vec![mode as u128, flav as u128, spawn as u128, pol as u128, ncl as u128, cmode as u128, defer as u128, lim as u128];
@@ -1383,9 +1882,12 @@ fn gen_case(r: &mut Rng, mode: u64, profile: u64) -> Vec<u128> {
     let mut ncalls = 0u64;
     let mut held: Vec<(u64, u64)> = Vec::new();
     let mut cut_done = false;
+    let mut stop_done = false;
     let push = |v: &mut Vec<u128>, o: [u64; 5]| v.extend(o.iter().map(|x| *x as u128));
     // how often things go wrong
     let (p_bad, p_drop, p_cut, p_dropcl) = if profile == 0 { (40, 4, 1, 3) } else { (10, 14, 4, 5) };
+    // the callee goes away (at most once per case, in about one case in four)
+    let p_stop = 2;
     for k in 0..nops {
         let x = r.below(100);
         if x < 50 || ncalls == 0 {
@@ -1436,6 +1938,9 @@ fn gen_case(r: &mut Rng, mode: u64, profile: u64) -> Vec<u128> {
             push(&mut v, [3, 0, 0, 0, 0]);
         } else if x < 78 + p_drop + p_cut + p_dropcl && k > 3 {
             push(&mut v, [4, r.below(ncl + 1), 0, 0, 0]);
+        } else if x < 78 + p_drop + p_cut + p_dropcl + p_stop && !stop_done && k > 1 {
+            stop_done = true;
+            push(&mut v, [7, 0, 0, 0, 0]);
         } else if mode == 1 {
             push(&mut v, [6, 0, 0, 0, 0]);
         } else if !held.is_empty() {
@@ -1486,8 +1991,73 @@ fn gen_known(r: &mut Rng, which: u64) -> Vec<u128> {
     v
 }
 
+/// "The callee goes away": some calls (a few of them held at a gate, so that they are executing or queued
+/// behind an executing one), then the stop op -- the future of `serve()` resp. the provider of the remote
+/// function is dropped --, then more calls through every client, gate openings, dropped calls.  Every call,
+/// pending or later, local or remote, must still get exactly one outcome.
+fn gen_gone(r: &mut Rng, mode: u64) -> Vec<u128> {
+    let flav = *r.pick(&[0u64, 1, 2, 3, 4, 4, 5, 6, 6, 7, 7, 8]);
+    let spawn = r.below(2);
+    let pol = *r.pick(&[0u64, 0, 1, 2]);
+    let ncl = if matches!(flav, 0 | 7 | 8) { 1 } else { r.range(1, 3) };
+    let cmode = if r.chance(1, 2) { 2 } else { r.below(2) };
+    let defer = if mode == 1 && r.chance(2, 3) { r.next() | 1 } else { 0 };
+    let mut v: Vec<u128> = vec![mode as u128, flav as u128, spawn as u128, pol as u128, ncl as u128, cmode as u128, defer as u128, 0];
+    let push = |v: &mut Vec<u128>, o: [u64; 5]| v.extend(o.iter().map(|x| *x as u128));
+    let mut ncalls = 0u64;
+    let mut held: Vec<(u64, u64)> = Vec::new();
+    let call = |r: &mut Rng, v: &mut Vec<u128>, ncalls: &mut u64, held: &mut Vec<(u64, u64)>, p_hold: u64| {
+        let mut fl = 0u64;
+        if r.chance(p_hold, 4) {
+            fl |= 1;
+            held.push((*ncalls, 1));
+        }
+        if r.chance(p_hold, 6) {
+            fl |= 2;
+            held.push((*ncalls, 2));
+        }
+        push(v, [0, r.below(ncl), pick_method(r, flav), r.below(20), fl]);
+        *ncalls += 1;
+        if mode == 1 {
+            for _ in 0..r.range(0, 2) {
+                push(v, [5, r.below(2), r.range(1, 4), 0, 0]);
+            }
+        }
+    };
+    for _ in 0..r.range(0, 4) {
+        call(r, &mut v, &mut ncalls, &mut held, 2);
+    }
+    if mode == 1 && r.chance(1, 2) {
+        push(&mut v, [6, 0, 0, 0, 0]);
+    }
+    push(&mut v, [7, 0, 0, 0, 0]);
+    for _ in 0..r.range(1, 6) {
+        let x = r.below(10);
+        if x < 6 {
+            call(r, &mut v, &mut ncalls, &mut held, 1);
+        } else if x < 8 && !held.is_empty() {
+            let i = r.below(held.len() as u64) as usize;
+            let (c, g) = held.remove(i);
+            push(&mut v, [1, c, g, 0, 0]);
+        } else if x < 9 && ncalls > 0 {
+            push(&mut v, [2, r.below(ncalls), 0, 0, 0]);
+        } else {
+            push(&mut v, [if mode == 1 { 6 } else { 4 }, r.below(ncl), 0, 0, 0]);
+        }
+    }
+    if r.chance(2, 3) {
+        for (c, g) in held.drain(..) {
+            push(&mut v, [1, c, g, 0, 0]);
+        }
+    }
+    v
+}
+
 pub fn gen(r: &mut Rng, i: usize) -> Vec<Vec<u128>> {
     let mode = if i % 3 == 2 { 1 } else { 0 };
+    if i % 8 == 7 {
+        return vec![gen_gone(r, mode)];
+    }
     vec![gen_case(r, mode, 0)]
 }
 
@@ -1496,6 +2066,9 @@ pub fn gen_cancel(r: &mut Rng, i: usize) -> Vec<Vec<u128>> {
         return vec![gen_known(r, 1 + (i / 24 % 2) as u64)];
     }
     let mode = if i % 3 == 2 { 1 } else { 0 };
+    if i % 12 == 7 {
+        return vec![gen_gone(r, mode)];
+    }
     vec![gen_case(r, mode, 1)]
 }
 
